@@ -289,6 +289,11 @@ theorem jail_setup_structure :
       fl &&& fs = fs ∧ fl &&& ns = ns ∧ fs ≠ 0 ∧ ns ≠ 0) :=
   ⟨by decide, by decide, by decide, by decide, _, _, _, rfl, rfl, rfl, by decide, by decide, by decide, by decide⟩
 
+/-- in package chrootarchive no call changes a root or working directory except inside the set-up function handed
+    to `unshare.Go` — on a thread that has unshared its file-system attributes; there is no second way into a jail
+    (a fallback for when `unshare` is refused would change them for the whole process) — regenerated on every run -/
+theorem no_jail_call_outside_unshare : Facts.jailCallsOutsideUnshare = 0 := by decide
+
 /-- non-vacuity: a reversible call that is released, and an irreversible one that is not -/
 example : (goM 0x04000000 ⟨fun _ => true, true, true, fun _ => true⟩).released = true ∧
           (goM 0x20200 ⟨fun _ => true, true, true, fun _ => true⟩).released = false ∧
